@@ -202,7 +202,17 @@ pub fn gen_line(r: &mut R, cols: &[J]) -> String {
         if r.gen_bool(0.15) { s.push_str(pick(r, &[" ", "\r", "\t", " trailing", " {}", ","])); }
         return s;
     }
-    if kind == 3 { return pick(r, &["", " ", "\r", "{", "[1,", "null", "12", "\"s\"", "{\"a\":}", "\u{feff}{\"a\":1}", "x"]).to_string(); }
+    if kind == 3 {
+        if r.gen_bool(0.4) {
+            // a long line of multi-byte characters after 0-3 ASCII characters (any fixed byte offset falls inside a character for some of them), possibly ending like a row
+            let c = ['ä', '日', '😀', 'é'][r.gen_range(0..4)];
+            let mut s: String = "note:  ".chars().take(r.gen_range(0..8)).collect();
+            for _ in 0..r.gen_range(20..130) { s.push(c); }
+            if r.gen_bool(0.5) { s.push(' '); s.push_str(pick(r, TOKENS)); }
+            return s;
+        }
+        return pick(r, &["", " ", "\r", "{", "[1,", "null", "12", "\"s\"", "{\"a\":}", "\u{feff}{\"a\":1}", "x"]).to_string();
+    }
     let n = r.gen_range(1..6);
     let mut s = String::new();
     if r.gen_bool(0.1) { s.push_str(pick(r, SEPS)); }
